@@ -1120,7 +1120,14 @@ class FileStorage(
             tid = decodebytes(transaction_id + b'\n')
             assert len(tid) == 8
             tpos = self._txn_find(tid, 1)
-            tindex = self._txn_undo_write(tpos)
+            buffered = self._tfile.tell()
+            try:
+                tindex = self._txn_undo_write(tpos)
+            except BaseException:
+                # A failed undo changes nothing: forget the records it
+                # has written to the transaction buffer so far.
+                self._tfile.seek(buffered)
+                raise
             self._tindex.update(tindex)
             return self._tid, tindex.keys()
 
